@@ -217,7 +217,8 @@ def check_solve(game, mods):
                 if fs[s] != exp:
                     fail({'C05'}, 'final-strategy', tag + f'state {s}: reported {fs[s]!r}, arg-opt over the conditioned transitions is {exp!r}')
         # ---- C14 (acyclic games with single-action final strategies and no reward ties)
-        if acyc:
+        abs_finals = all(len(tl[f]) == 1 and tl[f][0][1] == f for f in fin)      # C14's domain: final states absorbing
+        if acyc and abs_finals:
             single = all(fs[s] is None or len(fs[s]) == 1 for s in scope)
             noties = True
             for s in scope:
@@ -309,9 +310,9 @@ def check_repeat(game, mods, rng=None):
     return F
 
 
-def permute_game(game, rng):
+def permute_game(game, rng, reverse=False):
     n = len(game['players'])
-    perm = [0] + rng.sample(range(1, n), n - 1)          # perm[old] = new
+    perm = ([0] + list(range(n - 1, 0, -1))) if reverse else ([0] + rng.sample(range(1, n), n - 1))          # perm[old] = new
     inv = [0] * n
     for o, nw in enumerate(perm):
         inv[nw] = o
@@ -320,7 +321,10 @@ def permute_game(game, rng):
     for nw in range(n):
         o = inv[nw]
         ts = [(x, perm[t]) for x, t in game['transition_list'][o]]
-        rng.shuffle(ts)
+        if reverse:
+            ts.reverse()
+        else:
+            rng.shuffle(ts)
         ts = [((ren.setdefault(x, 'z' + x) if isinstance(x, str) else x), t) for x, t in ts]
         tl.append(ts)
     g2 = mk_game([game['players'][inv[nw]] for nw in range(n)], tl, [game['rewards'][inv[nw]] for nw in range(n)], [perm[f] for f in game['final_states']][::-1])
@@ -333,7 +337,16 @@ def check_permutation(game, mods, rng):
     if not is_acyclic(game['transition_list']):
         return F
     tad = mods['tad']
-    g2, perm, ren = permute_game(game, rng)
+    for reverse in (True, False):
+        F += _check_perm(game, tad, rng, reverse)
+        if F:
+            break
+    return F
+
+
+def _check_perm(game, tad, rng, reverse):
+    F = []
+    g2, perm, ren = permute_game(game, rng, reverse)
     n = len(perm)
     for prune in (True, False):
         rr = []
